@@ -16,7 +16,7 @@ CLAIMED = {
  "C09": ("tlc-lexer", "TLC bounded model of Lexer.tla over every small definition x every match environment + trace validation of lrlex runs with the regex engine as environment", "5 C09"),
  "C10": ("tlc-src", "TLC evaluation of YaccSrc.GrammarOf(document) against every accessor of the parsed grammar, over seeded-random documents in several renderings (layout, comments, quoting, declaration order; Original / Grmtools / Eco); second route from the rendered text alone: YaccParse.tla (text -> AST) and AstGrammar.tla (AST -> grammar object) predicted exactly (TraceYaccParse.tla)", "5 C10"),
  "C11": ("tlc-src", "TLC evaluation of LexSrc.LexerDefOf(document) (rules, start states, targets, Unescape, spans) and of lexing under the flags the document puts in force; every CTLexerBuilder flag setter against the run-time lexer (TraceCTRT.tla); MarkMap.tla (header/settings map and merge operator: bounded model of the merge laws + trace validation of random operation sequences)", "5 C11"),
- "C12": ("tlc-src", "TLC evaluation of the outcome contract (Totality.tla) on every outcome of the section / Yacc / lex parsers over mutated specifications, each run in a killable child process; the three parsers transcribed (Header.tla, LexParse.tla, YaccParse.tla): trace specifications predict every recorded outcome exactly (AST / lexer definition / section, all spans, errors in order), bounded models check termination and the contract on every short text", "5 C12"),
+ "C12": ("tlc-src", "TLC evaluation of the outcome contract (Totality.tla) on every outcome of the section / Yacc / lex parsers over mutated specifications, each run in a killable child process; the three parsers transcribed (Header.tla, LexParse.tla, YaccParse.tla): trace specifications predict every recorded outcome exactly (AST / lexer definition / section, all spans, errors in order), bounded models check termination and the contract on every short text; the rendering of every reported error and warning by the diagnostics formatter predicted exactly (Diagnostics.tla / TraceDiag)", "5 C12"),
  "C13": ("tlc-ctrt", "translation validation: generated modules compiled by rustc and run next to the run-time pipeline; TLC compares lexemes, recorded action values / trees and errors with repair sets (TraceCTRT.tla)", "5 C13"),
  "C14": ("tlc-pipe", "TLC trace validation of the stutter law Pipeline.Reconstitute on full observations before / after wincode serialise + _reconstitute, all widths and both encodings", "5 C14"),
  "C15": ("tlc-pipe", "TLC: OnceInit.tla (all interleavings of first use; safety for any number of threads by TLAPS, OnceInitProof.tla) + trace validation of Pipeline.BuildDeterministic over K independent processes, generated parser / lexer / token-map modules (token maps predicted exactly by TokenMap.tla), and 8-thread first use of compiled generated parsers", "5 C15"),
